@@ -1,34 +1,7 @@
-import RModel.Driver.Util
+import RModel.Driver.State
 /-! The checker: interprets one script line on the model state and compares with the Go output. -/
 namespace RModel.Driver
 open RModel
-
-structure IterSt where
-  kind : String        -- "fwd" | "rev" | "many" | "unset"
-  snap : BSet          -- the set being enumerated (for unset: complement restricted to the window)
-  cur : Nat            -- fwd: next candidate (values ≥ cur remain); rev: values < cur remain
-  deriving Inhabited
-
-structure St where
-  bm : Std.HashMap String BSet := {}
-  bm64 : Std.HashMap String BSet := {}
-  it : Std.HashMap String IterSt := {}
-  deriving Inhabited
-
-/-- result of checking a line: `none` = agrees -/
-abbrev Verdict := Option String
-
-def expect (exp got : String) : Verdict :=
-  if exp == got then none
-  else if exp == "panic" && got.startsWith "panic" then none
-  else if exp == "skip" && got.startsWith "skip" then none
-  else some exp
-
-def nat? (s : String) : Option Nat := s.toNat?
-
-def nats? (l : List String) : Option (List Nat) := l.mapM nat?
-
-def optNat (o : Option Nat) : String := match o with | some v => toString v | none => "-1"
 
 abbrev Cmd := St → List String → String → St × Verdict
 
